@@ -100,8 +100,10 @@ def _compile_before(case):
 
 def f_circuit_forward(case):
     N, prog = case['N'], case['prog']
-    circ, gates = SO.build_circuit(N, prog, 'Circuit', _compile_before(case))
-    if case['compile']:
+    mid = case.get('mid')
+    mid = None if mid is None or not prog else mid % len(prog)
+    circ, gates = SO.build_circuit(N, prog, 'Circuit', _compile_before(case) if mid is None else None, mid)
+    if case['compile'] or mid is not None:       # after a compile in the middle of the build, compiling again is the documented way to refresh the maps
         circ.compile()
     nmeas = sum(len(g['qubits']) for g in prog if g['kind'] == 'measure')
     nt = False
@@ -119,7 +121,7 @@ def f_circuit_forward(case):
         check(abs(dl - logp) < 1e-9, 'log2prob increment %r, trajectory probability 2^%r (record %s)' % (dl, logp, rec), 'log2prob')
         C.same_state_denotation(S, final, MO.rank_log2(final), 'state after Circuit.forward (record %s)' % rec)
         nt = nt or (rtg or (case['state']['r'] > 0 and nmeas > 0))
-    return {'nt': nt, 'labels': ['N=%d' % N, 'meas=%d' % min(nmeas, 5), 'r=%d' % case['state']['r'], 'compiled' if case['compile'] else 'plain'] + (['compiled-before-a-measure-was-appended'] if _compile_before(case) is not None else [])}
+    return {'nt': nt, 'labels': ['N=%d' % N, 'meas=%d' % min(nmeas, 5), 'r=%d' % case['state']['r'], 'compiled' if case['compile'] else 'plain'] + (['compiled-before-a-measure-was-appended'] if _compile_before(case) is not None and mid is None else []) + (['compiled-mid-build-then-again'] if mid is not None else [])}
 
 
 def st_mprog(N, max_len):
@@ -131,7 +133,7 @@ def st_mprog(N, max_len):
 def st_circuit(hiN):
     return st.integers(1, hiN).flatmap(lambda N: st.fixed_dictionaries(
         {'N': st.just(N), 'prog': st_mprog(N, 10), 'state': gen.st_state(N), 'seed': gen.st_seed(), 'compile': st.booleans(), 'reps': st.sampled_from([1, 1, 2]),
-         'early': st.sampled_from([None, None, 0, 1, 2])}))
+         'early': st.sampled_from([None, None, 0, 1, 2]), 'mid': st.sampled_from([None, None, None, 1, 2, 3, 4, 5, 6])}))
 
 
 _RES_FORMS = (int, int, np.int64, bool, np.bool_, float, np.uint8)
